@@ -70,6 +70,22 @@ Proof. herm @RzzGate_mat. Qed.
 Theorem C16_ISwapGate : ISwapGate_is_hermitian = true -> hermitian 2 (mxl (ISwapGate_mat (K:=K))).
 Proof. herm @ISwapGate_mat. Qed.
 End C16.
+Print Assumptions C16_IdentityGate.
+Print Assumptions C16_PauliXGate.
+Print Assumptions C16_PauliZGate.
+Print Assumptions C16_SxGate.
+Print Assumptions C16_RxGate.
+Print Assumptions C16_RyGate.
+Print Assumptions C16_RzGate.
+Print Assumptions C16_RotationGate.
+Print Assumptions C16_SGate.
+Print Assumptions C16_SAdjGate.
+Print Assumptions C16_TGate.
+Print Assumptions C16_TAdjGate.
+Print Assumptions C16_PhaseFactorGate.
+Print Assumptions C16_RxxGate.
+Print Assumptions C16_RyyGate.
+Print Assumptions C16_ISwapGate.
 Print Assumptions C16_PauliYGate.
 Print Assumptions C16_HadamardGate.
 Print Assumptions C16_RzzGate.
